@@ -201,6 +201,11 @@ func build(o *obs, tree *xcodec.Tree, terr string, canary int) *wire.Case {
 	c := &wire.Case{Class: o.class}
 	or := xcodec.NewOracle()
 	c.Str(o.typ)
+	known := ""
+	if canary == canNone {
+		known = xcodec.KnownClassC04(reflect.ValueOf(o.val))
+	}
+	c.Bool(known != "") // the value is outside wfb exactly when it is in a known-finding class
 	xcodec.Emit(c, reflect.ValueOf(o.val).Elem(), or)
 	// the decoded and scanned values contain the same floats/times when all is well; feed the
 	// oracle from them too so a difference is reported as a difference, not as a missing entry
@@ -256,6 +261,10 @@ func build(o *obs, tree *xcodec.Tree, terr string, canary int) *wire.Case {
 		desc["canary"] = canary
 	} else {
 		c.OracleFail = goOracle(o)
+		c.Known = known
+		if known != "" {
+			desc["known_class"] = known
+		}
 	}
 	return c
 }
@@ -298,6 +307,9 @@ func corpus() []*obs {
 	out = append(out, run("OSM", &osm.OSM{Nodes: osm.Nodes{{ID: 1, Timestamp: ep}}, Ways: osm.Ways{{ID: 2, Timestamp: ep}}, Relations: osm.Relations{{ID: 3, Timestamp: ep}}}, "corpus-epoch"))
 	out = append(out, run("Note", &osm.Note{ID: 1, Comments: []*osm.NoteComment{{Text: "a\rb\r\nc", HTML: "<p>x\r</p>&amp;lt;"}}}, "corpus-note-cr"))
 	out = append(out, run("Bounds", b(1, 2, 3, 4), "corpus-bounds"))
+	// known findings of C04 (formats cannot carry these values)
+	out = append(out, run("Note", &osm.Note{ID: 2, DateCreated: osm.Date{Time: time.Unix(1600000000, 500000000).UTC()}}, "corpus-known-date"))
+	out = append(out, run("Changeset", &osm.Changeset{ID: 2, Discussion: &osm.ChangesetDiscussion{}}, "corpus-known-discussion"))
 	out = append(out, run("Way", w1, "corpus-way"))
 	out = append(out, run("Relation", r1, "corpus-relation"))
 	out = append(out, run("Change", &osm.Change{Create: &osm.OSM{}, Delete: &osm.OSM{}}, "corpus-change-empty-blocks"))
@@ -312,7 +324,7 @@ func main() {
 	w := wire.NewWriter("C04", args.Seed, args.Tier)
 	w.Rule = "typed random values of Node, Way, Relation, Changeset, Note, User, Bounds, OSM, Change, Diff (every optional field independently zero or not, strings needing escapes, sub-second times, nested annotations and bounds); a case is non-trivial when the value has at least one non-zero field; distinct = distinct token streams"
 	rng := wire.Rng(args.Seed)
-	g := &xcodec.Gen{R: rng, Count: w.Count, MaxLen: 3}
+	g := &xcodec.Gen{R: rng, Count: w.Count, MaxLen: 3, Lossy: true}
 
 	all := corpus()
 	plan := []struct {
